@@ -54,6 +54,10 @@ def run(chk):
         b.add("symdel2|" + label, lambda: nn.symdel(ref, max_edits=k, seqs2=qs), mop, sop, meta)
         b.add("nearest_neighbor2|" + label, lambda: nn.nearest_neighbor(ref, max_edits=k, seqs2=qs), None, sop, meta)
         b.add("SymdelDB.lookup|" + label, lambda: nn.SymdelDB(ref, k).lookup(qs), None, sop, meta)
+        if len(ref) <= 10:
+            b.add("symdel2-positional-progress|" + label, lambda: nn.symdel(ref, k, None, 1, None, float("inf"), "triplets", qs, True), None, sop, meta)
+            b.add("nearest_neighbor2-positional|" + label, lambda: nn.nearest_neighbor(ref, k, None, 1, None, float("inf"), "triplets", qs), None, sop, meta)
+            b.add("SymdelDB.lookup-progress|" + label, lambda: nn.SymdelDB(ref, k).lookup(qs, progress=True), None, sop, meta)
 
     def add_lookupdb(label, ref, qs, k, model=True):
         for pdist in (False, True):
@@ -71,6 +75,8 @@ def run(chk):
             else:
                 b.add("LookupDB.lookup|" + label, lambda pd=pdist: nn.LookupDB(ref).lookup(qs, max_edits=k, pdist_mode=pd),
                       mop, sop, meta)
+                b.add("LookupDB.lookup-progress|" + label, lambda pd=pdist: nn.LookupDB(ref).lookup(qs, k, pd, None, float("inf"), "triplets", True),
+                      None, sop, meta)
 
     corner = [(["CAAA", "CDDD"], ["CAAA", "CDDE"]), (["A"], ["A"]), ([""], ["", "A"]), (["AC", "AC"], ["AC"]),
               (["CAAA", "CDDD", "CADA", "CAAK"], ["CAAF", "CCCC"]), (["AAA", "AA", "A", ""], ["AA"]),
